@@ -155,12 +155,15 @@ Qed.
 Definition ends_number (rest : list N) : Prop :=
   match rest with [] => True | c :: _ => is_digit c = false /\ c <> 46 /\ c <> 69 /\ c <> 101 end.
 
-Lemma take_digits_all ds rest : digit_list ds -> ends_number rest -> forall acc, take_digits (ds ++ rest) acc = (rev acc ++ ds, rest).
+Definition no_digit_next (rest : list N) : Prop := match rest with [] => True | c :: _ => is_digit c = false end.
+Lemma take_digits_stop ds rest : digit_list ds -> no_digit_next rest -> forall acc, take_digits (ds ++ rest) acc = (rev acc ++ ds, rest).
 Proof.
   intros Hd Hr. induction Hd as [|d ds Hd _ IH]; intros acc; cbn [app take_digits].
-  - rewrite app_nil_r. destruct rest as [|c r]; [reflexivity|]. destruct Hr as [Hc _]. cbn [take_digits]. rewrite Hc. reflexivity.
+  - rewrite app_nil_r. destruct rest as [|c r]; [reflexivity|]. cbn [take_digits]. cbn in Hr. rewrite Hr. reflexivity.
   - rewrite Hd, IH. cbn [rev]. rewrite <- app_assoc. reflexivity.
 Qed.
+Lemma take_digits_all ds rest : digit_list ds -> ends_number rest -> forall acc, take_digits (ds ++ rest) acc = (rev acc ++ ds, rest).
+Proof. intros Hd Hr. apply take_digits_stop; [exact Hd|]. destruct rest as [|c r]; [exact I|apply Hr]. Qed.
 
 Lemma ends_number_tests rest : ends_number rest ->
   match rest with c :: _ => is_digit c = false /\ (c =? 46) = false /\ ((c =? 69) || (c =? 101)) = false | [] => True end.
@@ -253,13 +256,21 @@ Proof. apply (skip_unused_ws [] c r). constructor. Qed.
 Lemma ws_indent k : ws_list (indent k).
 Proof. unfold indent. induction k as [|k IH]; [constructor|]. cbn [repeat]. constructor; [reflexivity|exact IH]. Qed.
 
-Fixpoint no_float (v : value) : bool :=
+(* which floats may occur: those accepted by `ok` (a parameter; `fun _ => false` = none) *)
+Fixpoint floats_ok (ok : N -> bool) (v : value) : bool :=
   match v with
-  | VNum (NFloat _) => false
-  | VArr l => forallb no_float l
-  | VObj o => forallb (fun kv => no_float (snd kv)) o
+  | VNum (NFloat b) => ok b
+  | VArr l => forallb (floats_ok ok) l
+  | VObj o => forallb (fun kv => floats_ok ok (snd kv)) o
   | _ => true
   end.
+Definition no_float (v : value) : bool := floats_ok (fun _ => false) v.
+
+(* what the round trip needs from the float printer for one float: its text starts like a number and the number
+   lexer reads it back as that float (ryu prints the shortest text that rounds to b; the lexer rounds correctly) *)
+Definition float_reads_back (pf : N -> list N) (b : N) : Prop :=
+  (exists d r, pf b = d :: r /\ (is_digit d = true \/ d = 45)) /\
+  forall rest, ends_number rest -> parse_json_number (pf b ++ rest) = Ok (VNum (NFloat b), rest).
 
 (* a measure that bounds the fuel the parser needs and is itself bounded by the length of the text *)
 Fixpoint tlen (v : value) : nat :=
@@ -278,6 +289,9 @@ Proof. destruct rest as [|c r]; [trivial|]. intros [-> | [-> | [-> | ->]]]; repe
 Section Roundtrip.
   Variable pf : N -> list N.
   Variable pretty : bool.
+  Variable ok : N -> bool.
+  Hypothesis Hok : forall b, ok b = true -> float_reads_back pf b.
+  Notation no_float := (floats_ok ok).
 
   Definition sep : list N := if pretty then [44; 10] else [44].
   Definition pad (k : nat) : list N := if pretty then indent k else [].
@@ -333,7 +347,7 @@ Section Roundtrip.
   Lemma render_head v ind : wf_shape v = true -> no_float v = true ->
     exists c r, render pf pretty ind v = c :: r /\ value_start c.
   Proof.
-    intros Hw Hn. destruct v as [|bb|s|nn|l|o]; [|destruct bb| |destruct nn as [z|n|b]| |]; try discriminate Hn;
+    intros Hw Hn. destruct v as [|bb|s|nn|l|o]; [|destruct bb| |destruct nn as [z|n|b]| |];
       try (eexists; eexists; split; [reflexivity|repeat split; (reflexivity || discriminate)]).
     - cbn [render number_text]. unfold dec_Z. destruct (z <? 0)%Z.
       + eexists; eexists; split; [reflexivity|repeat split; (reflexivity || discriminate)].
@@ -342,6 +356,8 @@ Section Roundtrip.
         destruct (dec_digits_cons _ Hn2) as (d & r & E & Hdd). rewrite E. exists d, r. split; [reflexivity|]. apply digit_start. exact Hdd.
     - cbn [render number_text]. cbn [wf_shape num_in_range] in Hw. apply N.ltb_lt in Hw.
       destruct (dec_digits_cons _ Hw) as (d & r & E & Hdd). rewrite E. exists d, r. split; [reflexivity|]. apply digit_start. exact Hdd.
+    - cbn [render number_text]. cbn [floats_ok] in Hn. destruct (Hok b Hn) as ((d & r & E & Hd) & _). rewrite E. exists d, r. split; [reflexivity|].
+      destruct Hd as [Hd| ->]; [apply digit_start; exact Hd|repeat split; (reflexivity || discriminate)].
     - rewrite render_arr. destruct (opening_cons 91) as (w & -> & _). eexists; eexists; split; [reflexivity|repeat split; (reflexivity || discriminate)].
     - rewrite render_obj. destruct (opening_cons 123) as (w & -> & _). eexists; eexists; split; [reflexivity|repeat split; (reflexivity || discriminate)].
   Qed.
@@ -361,7 +377,7 @@ Section Roundtrip.
     parse_json_value fuel (w ++ render pf pretty ind (VNum n) ++ rest) = Ok (unsign (VNum n), rest).
   Proof.
     intros Hw Hr Hn Ha Hf. destruct fuel as [|f]; [lia|]. pose proof (after_value_ends rest Ha) as He.
-    destruct n as [z|u|b]; [| |discriminate Hn]; cbn [render number_text unsign unsign_num].
+    destruct n as [z|u|b]; cbn [render number_text unsign unsign_num].
     - cbn [num_in_range] in Hr. apply andb_true_iff in Hr. destruct Hr as [R1 R2]. apply Z.leb_le in R1. apply Z.ltb_lt in R2.
       destruct (z <? 0)%Z eqn:Ez; [apply Z.ltb_lt in Ez|apply Z.ltb_ge in Ez].
       + pose proof (parse_negint_token z rest ltac:(lia) He) as P.
@@ -378,6 +394,13 @@ Section Roundtrip.
       pose proof (parse_uint_token u rest Hr He) as P.
       destruct (dec_digits_cons _ Hr) as (d & r & E & Hdd). rewrite E in *. destruct (digit_start d Hdd) as ((W & N92 & _) & T1 & T2 & T3).
       cbn [app parse_json_value]. rewrite (skip_unused_ws w) by assumption. rewrite T1, T2, T3, Hdd. cbn [orb]. exact P.
+    - cbn [floats_ok] in Hn. destruct (Hok b Hn) as ((d & r & E & Hd) & P). specialize (P rest He). rewrite E in *.
+      destruct Hd as [Hdd| ->].
+      + destruct (digit_start d Hdd) as ((W & N92 & _) & T1 & T2 & T3).
+        cbn [app parse_json_value]. rewrite (skip_unused_ws w) by assumption. rewrite T1, T2, T3, Hdd. cbn [orb]. exact P.
+      + cbn [app parse_json_value]. rewrite (skip_unused_ws w) by (assumption || reflexivity || discriminate).
+        change (45 =? 110) with false. change (45 =? 116) with false. change (45 =? 102) with false.
+        change (is_digit 45 || (45 =? 45)) with true. cbv iota. exact P.
   Qed.
 
   Lemma after_items ind r rest : after_value (ritems ind false r ++ closing ind ++ 93 :: rest).
@@ -493,7 +516,7 @@ Section Roundtrip.
       rewrite (skip_unused_ws w) by (assumption || reflexivity || discriminate).
       change (91 =? 110) with false. change (91 =? 116) with false. change (91 =? 102) with false.
       change (is_digit 91 || (91 =? 45)) with false. change (91 =? 34) with false. change (91 =? 91) with true. cbv iota.
-      cbn [tlen] in Hf. cbn [wf_shape] in Hw. cbn [no_float] in Hn. rewrite forallb_forall in Hw, Hn. rewrite Forall_forall in IH.
+      cbn [tlen] in Hf. cbn [wf_shape] in Hw. cbn [floats_ok] in Hn. rewrite forallb_forall in Hw, Hn. rewrite Forall_forall in IH.
       destruct l as [|x0 l0].
       + (* the empty array: nothing but the closing bracket, after whatever whitespace there is *)
         cbn [ritems app]. destruct f as [|f]; [cbn [length] in Hf; lia|]. cbn [arr_loop].
@@ -527,7 +550,7 @@ Section Roundtrip.
       change (123 =? 110) with false. change (123 =? 116) with false. change (123 =? 102) with false.
       change (is_digit 123 || (123 =? 45)) with false. change (123 =? 34) with false. change (123 =? 91) with false. change (123 =? 123) with true. cbv iota.
       cbn [tlen] in Hf. cbn [wf_shape] in Hw. apply andb_true_iff in Hw. destruct Hw as [Hs Hw].
-      cbn [no_float] in Hn. rewrite forallb_forall in Hw, Hn. rewrite Forall_forall in IH.
+      cbn [floats_ok] in Hn. rewrite forallb_forall in Hw, Hn. rewrite Forall_forall in IH.
       assert (HF : Forall (fun kv => bytes_ok (fst kv) /\ utf8_valid (fst kv) = true /\ wf_shape (snd kv) = true /\ no_float (snd kv) = true /\
                       forall w0 rest', ws_list w0 -> after_value rest' ->
                         parse_json_value f (w0 ++ render pf pretty (ind + 2) (snd kv) ++ rest') = Ok (unsign (snd kv), rest')) o).
@@ -581,12 +604,12 @@ Section Roundtrip.
     induction v as [|b|s|n|l IH|o IH] using value_ind2; intros ind Hw Hn;
       try (destruct (render_head _ ind Hw Hn) as (c & r & E & _); rewrite E; cbn [tlen length]; lia).
     - rewrite render_arr. destruct (opening_cons 91) as (wo & -> & _). cbn [tlen length app]. rewrite !app_length. cbn [length].
-      cbn [wf_shape] in Hw. cbn [no_float] in Hn. rewrite forallb_forall in Hw, Hn.
+      cbn [wf_shape] in Hw. cbn [floats_ok] in Hn. rewrite forallb_forall in Hw, Hn.
       assert (HF : Forall (fun x => (tlen x <= length (render pf pretty (ind + 2) x))%nat) l).
       { rewrite Forall_forall in *. intros x Hx. apply IH; [exact Hx|apply Hw; exact Hx|apply Hn; exact Hx]. }
       pose proof (ritems_len ind l true HF) as G. cbv iota in G. lia.
     - rewrite render_obj. destruct (opening_cons 123) as (wo & -> & _). cbn [tlen length app]. rewrite !app_length. cbn [length].
-      cbn [wf_shape] in Hw. apply andb_true_iff in Hw. destruct Hw as [_ Hw]. cbn [no_float] in Hn. rewrite forallb_forall in Hw, Hn.
+      cbn [wf_shape] in Hw. apply andb_true_iff in Hw. destruct Hw as [_ Hw]. cbn [floats_ok] in Hn. rewrite forallb_forall in Hw, Hn.
       assert (HF : Forall (fun kv => (tlen (snd kv) <= length (render pf pretty (ind + 2) (snd kv)))%nat) o).
       { rewrite Forall_forall in *. intros kv Hx. apply (IH kv Hx); [|apply (Hn kv Hx)].
         specialize (Hw kv Hx). apply andb_true_iff in Hw. apply Hw. }
@@ -601,9 +624,58 @@ Section Roundtrip.
   Qed.
 End Roundtrip.
 
-(* C02 / C03: both renderings of a document without floats parse back to the document (non-negative integers come
-   back unsigned, as the text parser types them); so the pretty rendering and the compact one denote the same value *)
+(* C02 / C03: both renderings of a document parse back to the document (non-negative integers come back unsigned, as
+   the text parser types them), for every document all of whose floats the printer/lexer pair reads back ... *)
+Theorem parse_rendering_floats pf pretty ok : (forall b, ok b = true -> float_reads_back pf b) ->
+  forall v, wf_shape v = true -> floats_ok ok v = true -> parse_value (render pf pretty 0 v) = Ok (unsign v).
+Proof. intros Hok v. exact (parse_rendering pf pretty ok Hok v). Qed.
+
+(* ... in particular, with no assumption at all, for every document without floats *)
 Theorem parse_render_roundtrip pf v : wf_shape v = true -> no_float v = true -> parse_value (to_string_t pf v) = Ok (unsign v).
-Proof. exact (parse_rendering pf false v). Qed.
+Proof. apply (parse_rendering pf false (fun _ => false)). intros b H. discriminate H. Qed.
 Theorem parse_pretty_roundtrip pf v : wf_shape v = true -> no_float v = true -> parse_value (to_pretty_string_t pf v) = Ok (unsign v).
-Proof. exact (parse_rendering pf true v). Qed.
+Proof. apply (parse_rendering pf true (fun _ => false)). intros b H. discriminate H. Qed.
+
+(* a decimal token without exponent: digits '.' digits *)
+Lemma parse_decimal_token ids fds rest : digit_list ids -> (ids = [48] \/ exists d r, ids = d :: r /\ d <> 48) ->
+  digit_list fds -> fds <> [] -> ends_number rest ->
+  parse_json_number (ids ++ 46 :: fds ++ rest)
+  = Ok (VNum (NFloat (round_dec false (digits_val fds (digits_val ids 0)) (0 - Z.of_nat (length fds)))), rest).
+Proof.
+  intros Hi Hz Hfd Hne Hr. pose proof (ends_number_tests rest Hr) as T.
+  assert (E46 : no_digit_next (46 :: fds ++ rest)) by reflexivity.
+  unfold parse_json_number.
+  assert (S1 : (match ids ++ 46 :: fds ++ rest with
+                | c :: r => if c =? 45 then (true, r) else (false, ids ++ 46 :: fds ++ rest)
+                | [] => (false, ids ++ 46 :: fds ++ rest) end) = (false, ids ++ 46 :: fds ++ rest)).
+  { destruct Hz as [->|(d & r & -> & _)]; [reflexivity|]. cbn [app].
+    inversion Hi as [|? ? Hdd _]. unfold is_digit in Hdd. apply andb_true_iff in Hdd. destruct Hdd as [L1 L2]. apply N.leb_le in L1.
+    replace (d =? 45) with false by (symmetry; apply N.eqb_neq; lia). reflexivity. }
+  rewrite S1. clear S1.
+  assert (S2 : (match ids ++ 46 :: fds ++ rest with
+                | [] => Err EOther
+                | d :: r => if d =? 48 then match r with c :: _ => if is_digit c then Err EOther else Ok ([48], r) | [] => Ok ([48], r) end
+                            else let '(ds0, r') := take_digits (ids ++ 46 :: fds ++ rest) [] in match ds0 with [] => Err EOther | _ => Ok (ds0, r') end
+                end) = Ok (ids, 46 :: fds ++ rest)).
+  { destruct Hz as [->|(d & r & -> & Hd48)].
+    - reflexivity.
+    - cbn [app]. apply N.eqb_neq in Hd48. rewrite Hd48.
+      change (d :: r ++ 46 :: fds ++ rest) with ((d :: r) ++ 46 :: fds ++ rest). rewrite (take_digits_stop (d :: r) _ Hi E46 []). reflexivity. }
+  rewrite S2. clear S2. cbn [bind]. change (46 =? 46) with true. cbv iota.
+  destruct fds as [|f0 fr]; [contradiction Hne; reflexivity|]. cbn [app].
+  change (f0 :: fr ++ rest) with ((f0 :: fr) ++ rest). rewrite (take_digits_all (f0 :: fr) rest Hfd Hr []). cbn [rev app bind].
+  destruct rest as [|c r]; [reflexivity|]. destruct T as (_ & _ & T3). rewrite T3. reflexivity.
+Qed.
+
+(* the assumption is satisfiable: 1.5 printed as "1.5" reads back as the double 0x3FF8000000000000 *)
+Example float_reads_back_example : float_reads_back (fun _ => [49; 46; 53]) 4609434218613702656.
+Proof.
+  split; [exists 49, [46; 53]; split; [reflexivity|left; reflexivity]|].
+  intros rest He. cbv beta. cbn [app].
+  pose proof (parse_decimal_token [49] [53] rest) as P. cbn [app] in P. rewrite P; try assumption.
+  - vm_compute. reflexivity.
+  - constructor; [reflexivity|constructor].
+  - right. exists 49, []. split; [reflexivity|discriminate].
+  - constructor; [reflexivity|constructor].
+  - discriminate.
+Qed.
